@@ -67,7 +67,8 @@ type Stats struct {
 }
 
 type DeadlockInfo struct {
-	Tasks []string `json:"tasks"`
+	Tasks  []string `json:"tasks"`
+	OnlyWG bool     `json:"onlyWG"` // every blocked task waits on a WaitGroup (shutdown hang), no lock is involved
 }
 
 // Ex executes one plan under the simulator.
@@ -375,7 +376,7 @@ func (ex *Ex) perform(a action) {
 		ex.Stats.Faults["net.segment"]++
 	}
 	last := cut == len(rest)
-	inEv := &Ev{Kind: "in", Conn: c.Idx, Op: pp.op, N: int64(cut), Last: last}
+	inEv := &Ev{Kind: "in", Conn: c.Idx, Op: pp.op, hasOp: true, N: int64(cut), Last: last}
 	if last {
 		inEv.Pkt = pp.pkt
 	}
@@ -506,7 +507,34 @@ func (ex *Ex) drive() bool {
 				if ex.anyStalledWriter() {
 					return true
 				}
-				di := &DeadlockInfo{}
+				onlyWG := true
+				for _, t := range bl {
+					if t.Why != "wg" {
+						onlyWG = false
+					}
+				}
+				if onlyWG {
+					// somebody waits for handlers to finish (Server.Close): handlers blocked reading from an
+					// idle connection end when their keepalive deadline passes, so let virtual time run
+					// to the next connection deadline before calling it a hang.
+					var next time.Time
+					for _, c := range ex.Conns {
+						c.mu.Lock()
+						if !c.brokerClosed && !c.peerClosed && !c.deadline.IsZero() && (next.IsZero() || c.deadline.Before(next)) {
+							next = c.deadline
+						}
+						c.mu.Unlock()
+					}
+					if !next.IsZero() {
+						if d := time.Until(next); d > 0 {
+							time.Sleep(d)
+						}
+						ex.Stats.Faults["time.advance"]++
+						ex.H.add(&Ev{Kind: "tick", Conn: -1, Str: "await-keepalive"})
+						continue
+					}
+				}
+				di := &DeadlockInfo{OnlyWG: onlyWG}
 				for _, t := range bl {
 					di.Tasks = append(di.Tasks, fmt.Sprintf("%s waits(%s) at %s held-by[%s]", t.Name, t.Why, verifsim.SiteString(t.Site), ex.sc.Holder(t)))
 				}
@@ -564,7 +592,7 @@ func (ex *Ex) collectRuntimeEvents() {
 // quiesce records a quiescent point with a state probe.
 func (ex *Ex) quiesce(op int) {
 	p := ex.probe()
-	seq := ex.H.add(&Ev{Kind: "quiesce", Conn: -1, Op: op, Probe: p})
+	seq := ex.H.add(&Ev{Kind: "quiesce", Conn: -1, Op: op, hasOp: true, Probe: p})
 	if op >= 0 && op < len(ex.opQuiesce) {
 		ex.opQuiesce[op] = seq
 	}
@@ -617,7 +645,7 @@ func (ex *Ex) probe() *Probe {
 func (ex *Ex) connOf(slot int) *Conn { return ex.slots[slot] }
 
 func (ex *Ex) issue(i int, op *Op) {
-	ex.opSeq[i] = ex.H.add(&Ev{Kind: "op", Conn: -1, Op: i, Str: op.Kind, N: int64(op.Slot)})
+	ex.opSeq[i] = ex.H.add(&Ev{Kind: "op", Conn: -1, Op: i, hasOp: true, Str: op.Kind, N: int64(op.Slot)})
 	switch op.Kind {
 	case "connect":
 		c := &Conn{ex: ex, Idx: len(ex.Conns), Slot: op.Slot, notify: make(chan struct{}, 1), AckMode: op.AckMode, ConnectOp: i, closeSeq: -1}
@@ -630,7 +658,7 @@ func (ex *Ex) issue(i int, op *Op) {
 				c.Ver = 3
 			}
 		}
-		c.openSeq = ex.H.add(&Ev{Kind: "open", Conn: c.Idx, Op: i, N: int64(op.Slot)})
+		c.openSeq = ex.H.add(&Ev{Kind: "open", Conn: c.Idx, Op: i, hasOp: true, N: int64(op.Slot)})
 		ex.Conns = append(ex.Conns, c)
 		ex.slots[op.Slot] = c
 		if op.Pkt != nil {
@@ -652,21 +680,21 @@ func (ex *Ex) issue(i int, op *Op) {
 	case "subscribe", "unsubscribe", "publish", "ping", "disconnect", "auth", "packet":
 		c := ex.connOf(op.Slot)
 		if c == nil || c.isClosed() || op.Pkt == nil {
-			ex.H.add(&Ev{Kind: "skipped", Conn: -1, Op: i})
+			ex.H.add(&Ev{Kind: "skipped", Conn: -1, Op: i, hasOp: true})
 			return
 		}
 		ex.enqueue(c, op.Pkt, i, op.Enc, op.Ver)
 	case "raw":
 		c := ex.connOf(op.Slot)
 		if c == nil || c.isClosed() {
-			ex.H.add(&Ev{Kind: "skipped", Conn: -1, Op: i})
+			ex.H.add(&Ev{Kind: "skipped", Conn: -1, Op: i, hasOp: true})
 			return
 		}
 		c.pending = append(c.pending, &pendingPkt{data: op.Raw, op: i})
 	case "ack": // manual acknowledgement of the N-th pending inbound message
 		c := ex.connOf(op.Slot)
 		if c == nil || c.isClosed() || len(c.unacked) == 0 {
-			ex.H.add(&Ev{Kind: "skipped", Conn: -1, Op: i})
+			ex.H.add(&Ev{Kind: "skipped", Conn: -1, Op: i, hasOp: true})
 			return
 		}
 		k := op.N % len(c.unacked)
@@ -698,10 +726,12 @@ func (ex *Ex) issue(i int, op *Op) {
 	case "stall":
 		if c := ex.connOf(op.Slot); c != nil && !c.isClosed() {
 			c.stall()
+			ex.H.add(&Ev{Kind: "stall-on", Conn: c.Idx})
 		}
 	case "unstall":
 		if c := ex.connOf(op.Slot); c != nil {
 			c.unstall()
+			ex.H.add(&Ev{Kind: "stall-off", Conn: c.Idx})
 			synctest.Wait()
 		}
 	case "failwrite":
@@ -726,7 +756,7 @@ func (ex *Ex) issue(i int, op *Op) {
 			t := ex.sc.Spawn(fmt.Sprintf("api%03d", i), func() {
 				err := ex.Srv.Publish(p.Topic, []byte(p.Payload), p.Retain, p.Qos)
 				if err != nil {
-					ex.H.add(&Ev{Kind: "api", Conn: -1, Op: i, Str: "publish-error", Str2: err.Error()})
+					ex.H.add(&Ev{Kind: "api", Conn: -1, Op: i, hasOp: true, Str: "publish-error", Str2: err.Error()})
 				}
 			})
 			ex.apiTasks = append(ex.apiTasks, t)
@@ -740,7 +770,7 @@ func (ex *Ex) issue(i int, op *Op) {
 					ex.inlineGot = append(ex.inlineGot, InlineMsg{Seq: seq, SubID: sub.Identifier, Filter: sub.Filter, Topic: pk.TopicName, Payload: string(pk.Payload), Retain: pk.FixedHeader.Retain, Qos: pk.FixedHeader.Qos})
 				})
 				if err != nil {
-					ex.H.add(&Ev{Kind: "api", Conn: -1, Op: i, Str: "subscribe-error", Str2: err.Error()})
+					ex.H.add(&Ev{Kind: "api", Conn: -1, Op: i, hasOp: true, Str: "subscribe-error", Str2: err.Error()})
 				}
 			})
 			ex.apiTasks = append(ex.apiTasks, t)
@@ -751,7 +781,7 @@ func (ex *Ex) issue(i int, op *Op) {
 			t := ex.sc.Spawn(fmt.Sprintf("api%03d", i), func() {
 				err := ex.Srv.Unsubscribe(filter, id)
 				if err != nil {
-					ex.H.add(&Ev{Kind: "api", Conn: -1, Op: i, Str: "unsubscribe-error", Str2: err.Error()})
+					ex.H.add(&Ev{Kind: "api", Conn: -1, Op: i, hasOp: true, Str: "unsubscribe-error", Str2: err.Error()})
 				}
 			})
 			ex.apiTasks = append(ex.apiTasks, t)
@@ -773,7 +803,7 @@ func (ex *Ex) startServerClose(op int) {
 	ex.closeReturnedSeq = -1
 	ex.closeTask = ex.sc.Spawn("close", func() {
 		_ = ex.Srv.Close()
-		ex.closeReturnedSeq = ex.H.add(&Ev{Kind: "api", Conn: -1, Op: op, Str: "close-returned"})
+		ex.closeReturnedSeq = ex.H.add(&Ev{Kind: "api", Conn: -1, Op: op, hasOp: true, Str: "close-returned"})
 	})
 }
 
